@@ -94,7 +94,6 @@ func diagKeys(view map[string][]diag) []string {
 }
 
 func checkC11(c *Ctx) {
-	scShallowSims = true // (references answer nothing in a stretch of some 18-item one-line programs: observed, not yet explained; DESIGN.md 11.3)
 	c.Rep.Rule = "Scope.tla programs (exhaustive core + simulated); on a fresh real server rename to a fresh one-letter name is requested at two seeded occurrences per program; the WorkspaceEdit must be non-overlapping, each edit must cover one identifier spelled with the old name, the edited set must be the occurrence class of TLC's bindings, and the edited workspace, analysed by another fresh server, must give the same diagnostics and the same definition answers as the original (names have equal length, so positions are comparable)"
 	c.Rep.Assumptions = []string{
 		"new name 'z' is fresh (not in Names, not a keyword/builtin) and as long as the old one",
